@@ -179,6 +179,24 @@ def run_controls(chk, module, fixture, expected):
                     'expected a violation of %s %s* on fixtures/%s; violations there: %s' % (rule, prefix, fixture, bad[:6]))
 
 
+def check_lock(repo=REPO):
+    """the summaries of external functions are pinned to crate versions; if /repo/Cargo.lock
+    moved to a version they were not written against there is no verdict (exit 2)"""
+    import re
+    from .summaries import PINNED
+    try:
+        txt = open(os.path.join(repo, 'Cargo.lock')).read()
+    except OSError:
+        raise InfraError('no Cargo.lock in %s' % repo)
+    found = {}
+    for m in re.finditer(r'name = "([^"]+)"\nversion = "([^"]+)"', txt):
+        found.setdefault(m.group(1), set()).add(m.group(2))
+    for crate, allowed in PINNED.items():
+        for v in found.get(crate, ()):
+            if allowed and not any(v == a or (a.endswith('.') and v.startswith(a)) for a in allowed):
+                raise InfraError('cbv/summaries.py was written against %s %s but Cargo.lock has %s: re-validate the summaries' % (crate, allowed, v))
+
+
 class Ctx:
     """what a rule module gets: lazily extracted fact bases"""
 
@@ -191,6 +209,8 @@ class Ctx:
 
     def facts(self, profile=None):
         profile = profile or self.profile
+        if not self._facts:
+            check_lock(self.repo)
         if profile not in self._facts:
             d = extract(profile, self.repo)
             self._facts[profile] = mir.Facts(d)
